@@ -488,6 +488,12 @@ func GenIndex(t *rapid.T, name Ident, tb Table, unique, exprs, partial bool) Ind
 			// column decides whether SQLite appends the key column again
 			s += " COLLATE " + rapid.SampledFrom([]string{"BINARY", "binary"}).Draw(t, "icollwrn")
 		}
+		if !ix.Plain[len(ix.Plain)-1] {
+			// the COLLATE is part of what the expression computes: after a
+			// comparison it belongs to the right operand and decides the
+			// result (a = b COLLATE RTRIM)
+			ix.Exprs[len(ix.Exprs)-1] = s
+		}
 		s += rapid.SampledFrom([]string{"", "", "", " ASC", " DESC", " DESC"}).Draw(t, "idir")
 		ix.Cols = append(ix.Cols, s)
 	}
